@@ -264,7 +264,7 @@ def check(prog: Program, tier: str) -> Result:
     from . import c10 as _c10
     res.adopt(_c10.check(prog, tier), {"R10.1", "R10.3", "R10.6"}, "R19.3",
               "a rename is consistent only if its transaction is applied as a whole or not at all")
-    res.floors.update({"R19.1": 8, "R19.2": 4, "R19.3": 2, "R19.4": 1, "R19.5": 1, "R19.6": 1, "R19.7": 2, "R19.8": 6, "R19.9": 1, "R19.10": 1, "R19.11": 3, "R19.12": 1, "R19.13": 3})
+    res.floors.update({"R19.1": 8, "R19.2": 4, "R19.3": 2, "R19.4": 1, "R19.5": 1, "R19.6": 1, "R19.7": 2, "R19.8": 6, "R19.9": 1, "R19.10": 1, "R19.11": 3, "R19.12": 1, "R19.13": 4})
     res.analysed.update({"named_node_constructions_reaching_output": n_ctor, "guarded_name_generators": sorted(f"{a}.{b}" for a, b in gens)})
     return res
 
@@ -984,6 +984,11 @@ def _r19_13(prog: Program, res: Result) -> None:
                        "component present" if k_ in t else
                        f"{what} are replaced by counters like local variables: two functions that differ only in WHICH {'builtin' if 'BUILTIN' in k_ else 'function or global'} they use "
                        "get the same key, one is deleted and its uses are redirected to the other (`def first(x): return len(x)` / `def second(x): return sum(x)`)")
+        declared = "ast.Global" in t and "ast.Nonlocal" in t
+        res.decide(declared, "R19.13", fn.loc(c), fn.fq, f"{short(c, 60)} # names that keep their spelling: names declared global / nonlocal",
+                   "component present" if declared else
+                   "a name the function declares global (or nonlocal) is stored to like a local and replaced by a counter: `def set_a(): global a; a = 1` and "
+                   "`def set_b(): global b; b = 1` get the same key, set_b is deleted, its calls are redirected to set_a and b is never set")
         present, _red = _import_component(prog, fn, kept)
         res.decide(present, "R19.13", fn.loc(c), fn.fq, f"{short(c, 60)} # names that keep their spelling: imported names",
                    "component present" if present else "imported names are replaced by counters: `os.getcwd()` and `sys.getcwd()` get the same key")
@@ -1137,6 +1142,7 @@ def _r19_7(prog: Program, res: Result) -> None:
 from ..selftest import Variant  # noqa: E402
 
 VARIANTS: List[Variant] = [
+    Variant("declared-global-names-anonymised-in-the-duplicate-key", "FIRE", "fixes", "            frozenset(preserve) | declared_names | (names_with_a_meaning - own_names)\n", "            frozenset(preserve) | (names_with_a_meaning - own_names)\n", "R19.13"),
     Variant("duplicates-keyed-with-builtins-anonymised", "FIRE", "fixes", "        | tracing.get_import_bound_names(root)\n        | constants.BUILTIN_FUNCTIONS\n    )\n    for node in core.filter_nodes(root.body, ast.FunctionDef):",
             "        | tracing.get_import_bound_names(root)\n    )\n    for node in core.filter_nodes(root.body, ast.FunctionDef):", "R19.13"),
     Variant("duplicates-keyed-by-the-preserve-set-only", "FIRE", "fixes", "        function_defs[abstractions.hash_node(node, kept_names)].add(node)", "        function_defs[abstractions.hash_node(node, preserve)].add(node)", "R19.13"),
